@@ -6,6 +6,7 @@ package parser
 import (
 	"errors"
 	"fmt"
+	"strconv"
 
 	"github.com/theory/sqljson/path/ast"
 )
@@ -25,4 +26,27 @@ func Parse(path string) (*ast.AST, error) {
 	}
 
 	return lexer.result, nil
+}
+
+// newInteger returns the ast.IntegerNode for text, the text of an INT_P
+// token. If its value is out of the range of int64, for which ast.NewInteger
+// panics, it instead reports an error to lex and returns a zero node.
+func newInteger(lex pathLexer, text string) *ast.IntegerNode {
+	if _, err := strconv.ParseInt(text, 0, 64); err != nil {
+		lex.Error(fmt.Sprintf("integer literal %v is out of range", text))
+		return ast.NewInteger("0")
+	}
+	return ast.NewInteger(text)
+}
+
+// newNumeric returns the ast.NumericNode for text, the text of a NUMERIC_P
+// token. If its value is out of the range of float64, for which
+// ast.NewNumeric panics, it instead reports an error to lex and returns a zero
+// node.
+func newNumeric(lex pathLexer, text string) *ast.NumericNode {
+	if _, err := strconv.ParseFloat(text, 64); err != nil {
+		lex.Error(fmt.Sprintf("numeric literal %v is out of range", text))
+		return ast.NewNumeric("0")
+	}
+	return ast.NewNumeric(text)
 }
